@@ -26,7 +26,9 @@
 EXTENDS Naturals, Integers, Sequences, FiniteSets, TLC
 
 CONSTANTS MaxLeaves,      \* bound on appended leaves
-          WithSubtrees    \* TRUE: the state-sync action AppendPrunedSubtree is enabled
+          WithSubtrees,   \* TRUE: the state-sync action AppendPrunedSubtree is enabled
+          Mut             \* "none"; any other value plants one deliberate transcription error (probe configs:
+                          \* TLC must then report Refinement violated, which shows the invariants have teeth)
 
 VARIABLES n,      \* number of leaves ever appended and not rewound (abstract)
           spent,  \* abstract: 0-based positions of removed leaves
@@ -92,14 +94,14 @@ NextShift(p, pos0) ==
     + (IF IsRoot(p, pos0) THEN 2 * (Pow2(Height(pos0)) - 1) ELSE 0)
 NextLeafShift(p, pos0) ==
     (IF pos0 = 0 THEN 0 ELSE GetLeafShift(p, pos0 - 1))
-    + (IF IsRoot(p, pos0) THEN (IF Height(pos0) = 0 THEN 0 ELSE Pow2(Height(pos0))) ELSE 0)
+    + (IF IsRoot(p, pos0) THEN (IF Height(pos0) = 0 THEN (IF Mut = "leafshift" THEN 1 ELSE 0) ELSE Pow2(Height(pos0))) ELSE 0)
 
 CleanupSubtree(p, pos0) ==
     LET lc0 == Leftmost(pos0)
         size == SetMax(p.bm)
     IN IF lc0 >= size THEN p
        ELSE LET idx == Rank(p.bm, lc0)
-            IN [p EXCEPT !.sc = Prefix(p.sc, idx), !.lsc = Prefix(p.lsc, idx),
+            IN [p EXCEPT !.sc = Prefix(p.sc, IF Mut = "cleanup" THEN idx + 1 ELSE idx), !.lsc = Prefix(p.lsc, idx),
                          !.bm = {e \in p.bm : ~(lc0 + 1 <= e /\ e <= size)}]
 
 AppendSingle(p, pos0) ==
@@ -172,7 +174,7 @@ RECURSIVE Climb(_, _, _)
 Climb(p, expanded, current1) ==
     LET parent0 == Parent(current1 - 1)
         sibling0 == Sibling(current1 - 1)
-        sibPruned == IsRoot(p, sibling0)
+        sibPruned == Mut # "climb" /\ IsRoot(p, sibling0)
         e1 == IF sibPruned THEN expanded \cup {1 + sibling0} ELSE expanded
     IN IF sibPruned \/ (1 + sibling0) \in e1
        THEN Climb(p, e1 \cup {1 + parent0}, 1 + parent0)
@@ -224,7 +226,7 @@ Rewind(k, rewindRm0) ==
            leafShift == IF position = 0 THEN 0 ELSE GetLeafShift(pl, position)
        IN /\ ls' = {l \in ls : 1 + l <= position} \cup rewindRm0
           /\ hf' = Prefix(hf, position - shift)
-          /\ df' = Prefix(df, NLeavesUpTo(position) - leafShift)
+          /\ df' = Prefix(df, NLeavesUpTo(position) - (IF Mut = "rewind" THEN 0 ELSE leafShift))
     /\ n' = k
     /\ spent' = {l \in spent : l < SizeOf(k)} \ rewindRm0
     /\ UNCHANGED <<cmp, pl, cut, bad>>
